@@ -332,3 +332,302 @@ Proof.
   exists (fold_left (crc_step poly w) bits init). split; [reflexivity|].
   exact (crc_remainder_l poly w bits init Hw Hp Hi).
 Qed.
+
+(* ---- uniqueness of the residue: the quotient ring GF(2)[x]/(G) realised by the register ---- *)
+Ltac xbits :=
+  apply Z.bits_inj'; let i := fresh "i" in intros i _; rewrite ?Z.lxor_spec;
+  repeat (match goal with |- context [Z.testbit ?x i] => destruct (Z.testbit x i) end); reflexivity.
+
+Lemma mod_lxor_pow2 : forall a b k, 0 <= k -> (Z.lxor a b) mod 2 ^ k = Z.lxor (a mod 2 ^ k) (b mod 2 ^ k).
+Proof.
+  intros a b k Hk. apply Z.bits_inj'; intros i Hi. rewrite Z.lxor_spec.
+  destruct (Z.ltb_spec i k).
+  - rewrite !Z.mod_pow2_bits_low by lia. apply Z.lxor_spec.
+  - rewrite !Z.mod_pow2_bits_high by lia. reflexivity.
+Qed.
+Lemma lxor_bit_add : forall r c, 0 <= c <= 1 -> Z.lxor (2 * r) c = 2 * r + c.
+Proof.
+  intros r c Hc. symmetry. apply Z.add_nocarry_lxor.
+  assert (c = 0 \/ c = 1) as [-> | ->] by lia; [apply Z.land_0_r|].
+  change 1 with (Z.ones 1). rewrite Z.land_ones by lia. change (2 ^ 1) with 2. lia.
+Qed.
+
+Section Quot.
+Variables poly w : Z.
+Hypothesis Hw : 0 < w.
+Hypothesis Hp : 0 <= poly < 2 ^ w.
+Let T (r : Z) : Z := crc_step poly w r false.
+Let n0 : nat := Z.to_nat w.
+
+Lemma T_range : forall r, 0 <= T r < 2 ^ w.
+Proof. intros. apply crc_step_range; lia. Qed.
+Lemma T_0 : T 0 = 0.
+Proof. unfold T, crc_step. rewrite Z.testbit_0_l, Z.shiftl_0_l, Z.mod_0_l; [reflexivity|]. pose proof (pow2_pos w). lia. Qed.
+Lemma T_linear : forall a b, T (Z.lxor a b) = Z.lxor (T a) (T b).
+Proof.
+  intros a b. unfold T, crc_step. rewrite Z.lxor_spec, !xorb_false_r, Z.shiftl_lxor, mod_lxor_pow2 by lia.
+  set (A := Z.shiftl a 1 mod 2 ^ w). set (B := Z.shiftl b 1 mod 2 ^ w).
+  destruct (Z.testbit a (w - 1)), (Z.testbit b (w - 1)); cbn [xorb]; xbits.
+Qed.
+Lemma T_small : forall r, 0 <= r < 2 ^ (w - 1) -> T r = 2 * r.
+Proof.
+  intros r Hr. unfold T, crc_step. rewrite (testbit_small r (w - 1) (w - 1)) by lia. cbn [xorb].
+  rewrite Z.shiftl_mul_pow2 by lia. change (2 ^ 1) with 2.
+  assert (2 ^ w = 2 * 2 ^ (w - 1)) by (rewrite <- Z.pow_succ_r by lia; f_equal; lia).
+  rewrite Z.mod_small by lia. lia.
+Qed.
+
+(* Horner evaluation of the polynomial m (its low n coefficients) in the quotient ring *)
+Fixpoint horner (n : nat) (m : Z) : Z :=
+  match n with O => 0 | S n' => Z.lxor (T (horner n' (Z.div2 m))) (Z.b2z (Z.odd m)) end.
+
+Lemma horner_range : forall n m, 0 <= horner n m < 2 ^ w.
+Proof.
+  induction n; intros m; cbn [horner]. { pose proof (pow2_pos w). lia. }
+  apply lxor_lt_pow2; [lia|apply T_range|].
+  assert (2 ^ 1 <= 2 ^ w) by (apply Z.pow_le_mono_r; lia). destruct (Z.odd m); cbn; lia.
+Qed.
+Lemma horner_lxor : forall n a b, horner n (Z.lxor a b) = Z.lxor (horner n a) (horner n b).
+Proof.
+  induction n; intros a b; cbn [horner]; [reflexivity|].
+  rewrite !Z.div2_spec, Z.shiftr_lxor, <- !Z.div2_spec, IHn, T_linear.
+  rewrite <- !Z.bit0_odd, Z.lxor_spec.
+  assert (E: forall x y : bool, Z.b2z (xorb x y) = Z.lxor (Z.b2z x) (Z.b2z y)) by (destruct x, y; reflexivity).
+  rewrite E. xbits.
+Qed.
+Lemma horner_double : forall n m, horner (S n) (2 * m) = T (horner n m).
+Proof.
+  intros. cbn [horner]. rewrite Z.div2_div, Z.mul_comm, Z.div_mul by lia.
+  rewrite Z.odd_mul. cbn [Z.odd andb Z.b2z]. rewrite andb_false_r. apply Z.lxor_0_r.
+Qed.
+Lemma horner_small : forall n m, Z.of_nat n <= w -> horner n m = m mod 2 ^ Z.of_nat n.
+Proof.
+  induction n; intros m Hn. { cbn. rewrite Z.mod_1_r. reflexivity. }
+  cbn [horner]. rewrite IHn by lia. rewrite Z.div2_div.
+  assert (Hr: 0 <= (m / 2) mod 2 ^ Z.of_nat n < 2 ^ Z.of_nat n) by (apply Z.mod_pos_bound, pow2_pos; lia).
+  assert (2 ^ Z.of_nat n <= 2 ^ (w - 1)) by (apply Z.pow_le_mono_r; lia).
+  rewrite T_small by lia. rewrite lxor_bit_add by (destruct (Z.odd m); cbn; lia).
+  rewrite <- Z.bit0_odd, Z.bit0_mod.
+  replace (Z.of_nat (S n)) with (1 + Z.of_nat n) by lia. rewrite Z.pow_add_r by lia. change (2 ^ 1) with 2.
+  rewrite Z.rem_mul_r by (try lia; apply pow2_pos; lia). lia.
+Qed.
+Lemma horner_lead : forall n m, 0 <= m < 2 ^ Z.of_nat n -> horner (S n) m = horner n m.
+Proof.
+  induction n; intros m Hm.
+  - change (2 ^ Z.of_nat 0) with 1 in Hm. assert (m = 0) by lia. subst. cbn. rewrite Z.lxor_0_r. apply T_0.
+  - cbn [horner]. f_equal. f_equal. fold (horner (S n) (Z.div2 m)). apply IHn.
+    rewrite Z.div2_div. replace (Z.of_nat (S n)) with (1 + Z.of_nat n) in Hm by lia.
+    rewrite Z.pow_add_r in Hm by lia. change (2 ^ 1) with 2 in Hm. lia.
+Qed.
+Lemma horner_lead_ge : forall d n m, 0 <= m < 2 ^ Z.of_nat n -> horner (d + n) m = horner n m.
+Proof.
+  induction d; intros n m Hm; [reflexivity|]. cbn [plus]. rewrite horner_lead; [apply IHd; assumption|].
+  assert (2 ^ Z.of_nat n <= 2 ^ Z.of_nat (d + n)) by (apply Z.pow_le_mono_r; lia). lia.
+Qed.
+Lemma horner_0 : forall n, horner n 0 = 0.
+Proof. intros. rewrite <- (Nat.add_0_r n). rewrite horner_lead_ge; [reflexivity|]. cbn. lia. Qed.
+
+Lemma horner_G : horner (S n0) (2 ^ w + poly) = 0.
+Proof.
+  assert (Hn0: Z.of_nat n0 = w) by (unfold n0; lia).
+  rewrite Z.add_comm, <- lxor_pow2_clear by lia. rewrite horner_lxor.
+  rewrite horner_lead by (rewrite Hn0; lia). rewrite horner_small by lia. rewrite Hn0, Z.mod_small by lia.
+  replace (2 ^ w) with (2 * 2 ^ (w - 1)) by (rewrite <- Z.pow_succ_r by lia; f_equal; lia).
+  rewrite horner_double, horner_small by lia. rewrite Hn0.
+  assert (Hlt: 0 <= 2 ^ (w - 1) < 2 ^ w).
+  { split; [apply Z.pow_nonneg; lia|]. apply Z.pow_lt_mono_r; lia. }
+  rewrite Z.mod_small by exact Hlt.
+  assert (HT: T (2 ^ (w - 1)) = poly).
+  { unfold T, crc_step. rewrite Z.pow2_bits_true by lia. cbn [xorb].
+    rewrite Z.shiftl_mul_pow2 by lia. change (2 ^ 1) with 2.
+    replace (2 ^ (w - 1) * 2) with (2 ^ w) by (rewrite Z.mul_comm, <- Z.pow_succ_r by lia; f_equal; lia).
+    rewrite Z.mod_same by (pose proof (pow2_pos w); lia). apply Z.lxor_0_l. }
+  rewrite HT. apply Z.lxor_nilpotent.
+Qed.
+Lemma horner_Gshift : forall k : nat, horner (k + S n0) (Z.shiftl (2 ^ w + poly) (Z.of_nat k)) = 0.
+Proof.
+  induction k.
+  - cbn [plus Z.of_nat]. rewrite Z.shiftl_0_r. apply horner_G.
+  - replace (Z.shiftl (2 ^ w + poly) (Z.of_nat (S k))) with (2 * Z.shiftl (2 ^ w + poly) (Z.of_nat k)).
+    + cbn [plus]. rewrite horner_double, IHk. apply T_0.
+    + rewrite !Z.shiftl_mul_pow2 by lia. replace (Z.of_nat (S k)) with (Z.succ (Z.of_nat k)) by lia.
+      rewrite Z.pow_succ_r by lia. ring.
+Qed.
+
+Lemma mult_horner : forall m, multG (2 ^ w + poly) m ->
+  exists N0 : nat, forall N : nat, (N0 <= N)%nat -> horner N m = 0.
+Proof.
+  intros m Hm. induction Hm as [|m k Hk Hm [N0 IH]].
+  - exists 0%nat. intros. apply horner_0.
+  - exists (Nat.max N0 (Z.to_nat k + S n0)). intros N HN. rewrite horner_lxor, IH by lia.
+    rewrite Z.lxor_0_l. replace N with ((N - (Z.to_nat k + S n0)) + (Z.to_nat k + S n0))%nat by lia.
+    rewrite horner_lead_ge.
+    + rewrite <- (Z2Nat.id k) at 2 by lia. apply horner_Gshift.
+    + assert (Hn0: Z.of_nat n0 = w) by (unfold n0; lia).
+      rewrite Z.shiftl_mul_pow2 by lia.
+      replace (Z.of_nat (Z.to_nat k + S n0)) with ((w + 1) + k) by lia.
+      rewrite Z.pow_add_r, Z.pow_add_r by lia. change (2 ^ 1) with 2.
+      pose proof (pow2_pos k Hk). pose proof (pow2_pos w). nia.
+Qed.
+
+Lemma residue_zero : forall m, multG (2 ^ w + poly) m -> 0 <= m < 2 ^ w -> m = 0.
+Proof.
+  intros m Hm Hr. destruct (mult_horner m Hm) as [N0 HN].
+  assert (Hn0: Z.of_nat n0 = w) by (unfold n0; lia).
+  specialize (HN (N0 + n0)%nat ltac:(lia)).
+  rewrite horner_lead_ge in HN by (rewrite Hn0; exact Hr).
+  rewrite horner_small, Hn0, Z.mod_small in HN by lia. exact HN.
+Qed.
+
+Lemma residue_unique_l : forall a b x, 0 <= a < 2 ^ w -> 0 <= b < 2 ^ w ->
+  congG (2 ^ w + poly) a x -> congG (2 ^ w + poly) b x -> a = b.
+Proof.
+  intros a b x Ha Hb Ca Cb. unfold congG in *.
+  pose proof (multG_xor _ _ _ Ca Cb) as H.
+  replace (Z.lxor (Z.lxor a x) (Z.lxor b x)) with (Z.lxor a b) in H by xbits.
+  apply Z.lxor_eq. apply residue_zero; [exact H|]. apply lxor_lt_pow2; lia.
+Qed.
+End Quot.
+
+(* ---- the table-driven algorithm equals the bit-serial specification ---- *)
+Lemma testbit_b2z : forall b k, Z.testbit (Z.b2z b) k = b && (k =? 0).
+Proof.
+  intros b k. destruct (Z.ltb_spec k 0); [rewrite Z.testbit_neg_r by lia; destruct b; cbn; lia|].
+  destruct (Z.eqb_spec k 0) as [->|]; [rewrite Z.b2z_bit0, andb_true_r; reflexivity|].
+  rewrite (testbit_small (Z.b2z b) 1 k) by (destruct b; cbn; lia). rewrite andb_false_r. reflexivity.
+Qed.
+Lemma msg_poly_byte : forall e, 0 <= e < 256 -> msg_poly (byte_bits e) = e.
+Proof.
+  intros e He. unfold byte_bits. cbn [seq map msg_poly length Z.of_nat Pos.of_succ_nat Pos.succ].
+  apply Z.bits_inj'; intros i Hi. rewrite !Z.lxor_spec, !Z.shiftl_spec, !testbit_b2z, Z.bits_0 by lia.
+  assert (i = 0 \/ i = 1 \/ i = 2 \/ i = 3 \/ i = 4 \/ i = 5 \/ i = 6 \/ i = 7 \/ 8 <= i) as H by lia.
+  repeat (destruct H as [-> | H]; [cbn; rewrite ?andb_true_r, ?andb_false_r, ?xorb_false_r, ?xorb_false_l; reflexivity|]).
+  rewrite (testbit_small e 8 i) by (change (2 ^ 8) with 256; lia).
+  repeat match goal with |- context [?a - ?b =? 0] => replace (a - b =? 0) with false by lia end.
+  rewrite !andb_false_r. reflexivity.
+Qed.
+Lemma msg_poly_range : forall bs, 0 <= msg_poly bs < 2 ^ Z.of_nat (length bs).
+Proof.
+  induction bs as [|b bs IH]; [cbn; lia|]. cbn [msg_poly length].
+  replace (Z.of_nat (S (length bs))) with (1 + Z.of_nat (length bs)) by lia. rewrite Z.pow_add_r by lia.
+  change (2 ^ 1) with 2. pose proof (pow2_pos (Z.of_nat (length bs))).
+  replace (2 * 2 ^ Z.of_nat (length bs)) with (2 ^ (1 + Z.of_nat (length bs))) by (rewrite Z.pow_add_r by lia; reflexivity).
+  apply lxor_lt_pow2; [lia| |rewrite Z.pow_add_r by lia; change (2 ^ 1) with 2; lia].
+  rewrite Z.shiftl_mul_pow2, Z.pow_add_r by lia. change (2 ^ 1) with 2. destruct b; cbn [Z.b2z]; lia.
+Qed.
+
+Section Table.
+Variables poly w : Z.
+Hypothesis Hw : 8 <= w.
+Hypothesis Hp : 0 <= poly < 2 ^ w.
+Let T (r : Z) : Z := crc_step poly w r false.
+Let Tk (k : nat) (r : Z) : Z := Nat.iter k T r.
+
+Lemma step_as_T : forall r bit, crc_step poly w r bit = T (Z.lxor r (Z.shiftl (Z.b2z bit) (w - 1))).
+Proof.
+  intros r bit. unfold T, crc_step.
+  rewrite Z.lxor_spec, Z.shiftl_spec, Z.sub_diag, Z.b2z_bit0, xorb_false_r by lia.
+  rewrite Z.shiftl_lxor, mod_lxor_pow2, Z.shiftl_shiftl by lia.
+  replace (w - 1 + 1) with w by lia.
+  replace (Z.shiftl (Z.b2z bit) w mod 2 ^ w) with 0.
+  - rewrite Z.lxor_0_r. reflexivity.
+  - rewrite Z.shiftl_mul_pow2 by lia. rewrite Z.mod_mul; [reflexivity|]. pose proof (pow2_pos w). lia.
+Qed.
+Lemma Tk_S : forall k r, Tk (S k) r = Tk k (T r).
+Proof. intros. unfold Tk. symmetry. apply iter_r. Qed.
+Lemma Tk_linear : forall k a b, Tk k (Z.lxor a b) = Z.lxor (Tk k a) (Tk k b).
+Proof.
+  induction k; intros a b; [reflexivity|]. rewrite !Tk_S. unfold T at 1. fold (T (Z.lxor a b)).
+  unfold T. rewrite (T_linear poly w ltac:(lia)). apply IHk.
+Qed.
+Lemma Tk_small : forall k x, 0 <= x < 2 ^ (w - Z.of_nat k) -> Z.of_nat k <= w -> Tk k x = x * 2 ^ Z.of_nat k.
+Proof.
+  induction k; intros x Hx Hk. { cbn. lia. }
+  rewrite Tk_S. unfold T. rewrite (T_small poly w ltac:(lia)).
+  - rewrite IHk.
+    + replace (Z.of_nat (S k)) with (1 + Z.of_nat k) by lia. rewrite Z.pow_add_r by lia. change (2 ^ 1) with 2. lia.
+    + replace (w - Z.of_nat k) with (1 + (w - Z.of_nat (S k))) by lia. rewrite Z.pow_add_r by lia. change (2 ^ 1) with 2. lia.
+    + lia.
+  - assert (2 ^ (w - Z.of_nat (S k)) <= 2 ^ (w - 1)) by (apply Z.pow_le_mono_r; lia). lia.
+Qed.
+
+(* feeding k message bits = preloading them at the top of the register, then k zero steps *)
+Lemma bits_preload : forall bs r, Z.of_nat (length bs) <= w ->
+  fold_left (crc_step poly w) bs r =
+  Tk (length bs) (Z.lxor r (Z.shiftl (msg_poly bs) (w - Z.of_nat (length bs)))).
+Proof.
+  induction bs as [|b bs IH]; intros r Hl.
+  - cbn [fold_left length msg_poly Tk Nat.iter]. unfold Tk. cbn [Nat.iter]. rewrite Z.shiftl_0_l, Z.lxor_0_r. reflexivity.
+  - cbn [fold_left length msg_poly] in *. rewrite IH by lia. rewrite Tk_S. f_equal.
+    set (k := Z.of_nat (length bs)) in *. replace (Z.of_nat (S (length bs))) with (k + 1) in * by lia.
+    rewrite step_as_T. rewrite Z.shiftl_lxor, Z.shiftl_shiftl by lia. replace (k + (w - (k + 1))) with (w - 1) by lia.
+    pose proof (msg_poly_range bs) as Hm. fold k in Hm.
+    rewrite <- Z.lxor_assoc. unfold T at 2. rewrite (T_linear poly w ltac:(lia)). fold (T (Z.lxor r (Z.shiftl (Z.b2z b) (w - 1)))).
+    f_equal. unfold T. rewrite (T_small poly w ltac:(lia)).
+    + rewrite !Z.shiftl_mul_pow2 by lia. replace (w - k) with (1 + (w - (k + 1))) by lia.
+      rewrite Z.pow_add_r by lia. change (2 ^ 1) with 2. lia.
+    + rewrite Z.shiftl_mul_pow2 by lia. split; [pose proof (pow2_pos (w - (k + 1))); nia|].
+      replace (w - 1) with (k + (w - (k + 1))) by lia. rewrite Z.pow_add_r by lia.
+      pose proof (pow2_pos (w - (k + 1))). nia.
+Qed.
+
+Lemma byte_step_table : forall r e, 0 <= r < 2 ^ w -> 0 <= e < 256 ->
+  fold_left (crc_step poly w) (byte_bits e) r = crc_byte_table poly w r e.
+Proof.
+  intros r e Hr He. rewrite bits_preload by (cbn; lia).
+  replace (length (byte_bits e)) with 8%nat by reflexivity. rewrite msg_poly_byte by assumption.
+  change (Z.of_nat 8) with 8.
+  set (P := 2 ^ (w - 8)). assert (HP: 0 < P) by (apply pow2_pos; lia).
+  assert (Hw2: 2 ^ w = P * 256) by (unfold P; change 256 with (2 ^ 8); rewrite <- Z.pow_add_r by lia; f_equal; lia).
+  set (H := Z.shiftr r (w - 8)). set (L := r mod P).
+  assert (HH: H = r / P) by (unfold H, P; apply Z.shiftr_div_pow2; lia).
+  assert (HL: 0 <= L < P) by (apply Z.mod_pos_bound; lia).
+  assert (Hdec: r = Z.lxor (Z.shiftl H (w - 8)) L).
+  { assert (Hdis: Z.land (Z.shiftl H (w - 8)) L = 0).
+    { apply Z.bits_inj'; intros j Hj. rewrite Z.land_spec, Z.bits_0.
+      destruct (Z.ltb_spec j (w - 8)); [rewrite Z.shiftl_spec_low by lia; reflexivity|].
+      rewrite (testbit_small L (w - 8) j) by (fold P; lia). apply andb_false_r. }
+    rewrite Z.lxor_lor, lor_disjoint_add by exact Hdis.
+    rewrite Z.shiftl_mul_pow2 by lia. fold P. rewrite HH. unfold L. pose proof (Z.div_mod r P). lia. }
+  assert (E1: Z.lxor r (Z.shiftl e (w - 8)) = Z.lxor (Z.shiftl (Z.lxor H e) (w - 8)) L).
+  { rewrite Z.shiftl_lxor. set (X := Z.shiftl H (w - 8)) in *. clearbody X. rewrite Hdec. xbits. }
+  rewrite E1.
+  rewrite Tk_linear. unfold crc_byte_table, crc_table. fold T. fold (Tk 8 (Z.shiftl (Z.lxor H e) (w - 8))).
+  rewrite Z.lxor_comm. f_equal.
+  rewrite Tk_small by (change (Z.of_nat 8) with 8; fold P; lia). change (2 ^ Z.of_nat 8) with 256.
+  rewrite Z.shiftl_mul_pow2 by lia. change (2 ^ 8) with 256. rewrite Hw2.
+  pose proof (Z.div_mod r P). unfold L. rewrite HH in *. clear Hdec. 
+  assert (E: r * 256 = (r / P) * (P * 256) + (r mod P) * 256) by nia.
+  rewrite E. rewrite Z.add_comm, Z.mod_add by lia. symmetry. apply Z.mod_small. fold L. nia.
+Qed.
+
+Lemma table_driven_equiv_l : forall init xorout data, 0 <= init < 2 ^ w -> bytes_ok data = true ->
+  crc_table_driven poly w init xorout data = crc_spec poly w init xorout data.
+Proof.
+  intros init xorout data Hi Hd. unfold crc_table_driven, crc_spec. f_equal.
+  revert init Hi. induction data as [|e data IH]; intros init Hi; [reflexivity|].
+  cbn in Hd. apply andb_prop in Hd. destruct Hd as [He Hd]. unfold is_byte in He.
+  cbn [fold_left flat_map]. rewrite fold_left_app. rewrite <- byte_step_table by lia.
+  apply IH; [assumption|].
+  apply (fold_inv Z (fun r => 0 <= r < 2 ^ w) (crc_step poly w)); [|exact Hi].
+  intros. apply crc_step_range; lia.
+Qed.
+End Table.
+
+(* crc_spec IS the remainder: any residue of degree < w congruent to init*x^n + M*x^w is the register *)
+Lemma crc_spec_characterised_l : forall poly w init xorout data R', 0 < w -> 0 <= poly < 2 ^ w -> 0 <= init < 2 ^ w ->
+  let bits := flat_map byte_bits data in
+  0 <= R' < 2 ^ w ->
+  congG (2 ^ w + poly) R' (Z.lxor (Z.shiftl init (Z.of_nat (length bits))) (Z.shiftl (msg_poly bits) w)) ->
+  crc_spec poly w init xorout data = Z.lxor R' xorout.
+Proof.
+  intros poly w init xorout data R' Hw Hp Hi bits HR HC.
+  destruct (crc_spec_remainder_l poly w init xorout data Hw Hp Hi) as [R [-> [HRr HRc]]].
+  f_equal. exact (residue_unique_l poly w Hw Hp R R' _ HRr HR HRc HC).
+Qed.
+Lemma tables_l : forall data, bytes_ok data = true ->
+  crc16_genibus data = crc_table_driven 4129 16 65535 65535 data /\
+  crc64_we data = crc_table_driven 4823603603198064275 64 (2 ^ 64 - 1) (2 ^ 64 - 1) data.
+Proof.
+  intros data Hd. split; symmetry; apply table_driven_equiv_l; try assumption; try lia.
+Qed.
